@@ -50,6 +50,10 @@ func oneEditCases() []gen.Str {
 			oneEditMemo = append(oneEditMemo, gen.Str{S: gen.BStr(s), Source: "one-edit"})
 		}
 	}
+	// every order-preserving subsequence of the v2 metric list; every subset of the base metrics of v3/v4
+	for _, s := range gen.Subsequences() {
+		oneEditMemo = append(oneEditMemo, gen.Str{S: gen.BStr(s), Source: "subsequence"})
+	}
 	return oneEditMemo
 }
 
@@ -110,9 +114,16 @@ func TestC01(t *testing.T) {
 				if _, ok := memberOfAny(key); ok {
 					valid++
 				}
+				if c.Source == "subsequence" {
+					if _, ok := memberOfAny(key); !ok {
+						key = "" // several metrics missing: not a one-edit boundary case
+					}
+					h.R.Case("metric subsequences / base subsets (exhaustive)", key)
+					continue
+				}
 				h.R.Case("one-edit neighbourhood of the representative vectors (exhaustive)", key)
 			}
-			h.R.Count("one-edit neighbourhood: strings still well-formed", int64(valid))
+			h.R.Count("one-edit neighbourhood and subsequences: strings still well-formed", int64(valid))
 			h.R.Sample("one-edit", nb[len(nb)/2])
 		}
 	}
